@@ -31,7 +31,8 @@ func (a addr) String() string  { return string(a) }
 
 type Assoc struct {
 	mu      sync.Mutex
-	cond    *sync.Cond
+	cond    *sync.Cond // readers waiting for data
+	obs     *sync.Cond // the test side waiting for a fact (parked readers must not wake each other)
 	in      []Chunk
 	eof     bool
 	closed  bool
@@ -44,6 +45,7 @@ type Assoc struct {
 func New() *Assoc {
 	a := &Assoc{closeCh: make(chan struct{})}
 	a.cond = sync.NewCond(&a.mu)
+	a.obs = sync.NewCond(&a.mu)
 	return a
 }
 
@@ -69,7 +71,7 @@ func (a *Assoc) SCTPRead(b []byte) (int, *sctp.SndRcvInfo, error) {
 	defer a.mu.Unlock()
 	for len(a.in) == 0 && !a.eof && !a.closed {
 		a.blocked++
-		a.cond.Broadcast()
+		a.obs.Broadcast()
 		a.cond.Wait()
 		a.blocked--
 	}
@@ -87,7 +89,7 @@ func (a *Assoc) SCTPRead(b []byte) (int, *sctp.SndRcvInfo, error) {
 	} else {
 		c.Data = c.Data[n:]
 	}
-	a.cond.Broadcast()
+	a.obs.Broadcast()
 	if a.NoInfo {
 		return n, nil, nil
 	}
@@ -105,7 +107,7 @@ func (a *Assoc) SCTPWrite(b []byte, info *sctp.SndRcvInfo) (int, error) {
 		s = info.Stream
 	}
 	a.out = append(a.out, OutRec{Stream: s, Data: append([]byte(nil), b...)})
-	a.cond.Broadcast()
+	a.obs.Broadcast()
 	return len(b), nil
 }
 
@@ -114,6 +116,7 @@ func (a *Assoc) Close() error {
 	first := !a.closed
 	a.closed = true
 	a.cond.Broadcast()
+	a.obs.Broadcast()
 	a.mu.Unlock()
 	if first {
 		close(a.closeCh)
@@ -147,10 +150,10 @@ func (a *Assoc) WaitReaderBlocked(d time.Duration) bool {
 		}
 		t := time.AfterFunc(2*time.Millisecond, func() {
 			a.mu.Lock()
-			a.cond.Broadcast()
+			a.obs.Broadcast()
 			a.mu.Unlock()
 		})
-		a.cond.Wait()
+		a.obs.Wait()
 		t.Stop()
 	}
 	return true
